@@ -483,12 +483,19 @@ pub fn run(ctx: &Ctx) -> Result<(), String> {
     let burst_n = AtomicU64::new(0);
     {
         let bss: Vec<u8> = ctx.tier.pick(vec![1, 2, 3, 4, 5, 7, 8, 16, 31, 32, 33, 63, 64], (1..=64).collect());
+        let big_burst_max_b: usize = ctx.tier.pick(8, 64);
         par_for(bss.len(), 1, |j, _| {
             let bs = bss[j];
             let b = bs as usize;
             let cfg = SrvCfg { batch_size: bs, ..Default::default() };
             let mut ks: BTreeSet<usize> = [b.saturating_sub(1), b, b + 1, 2 * b, 2 * b + 1].into_iter().filter(|k| *k >= 1).collect();
             ks.insert(1);
+            // bursts beyond what one call of the event loop handles (several calls must drain them)
+            if b <= big_burst_max_b {
+                for k in [16 * b, 16 * b + 1, 17 * b + 1, 32 * b + 1] {
+                    ks.insert(k);
+                }
+            }
             for &k in &ks {
                 for pat in ["C", "I", "CI", "CIX", "same-socket", "same-nonce"] {
                     // build an event list over up to k sockets
@@ -542,7 +549,7 @@ pub fn run(ctx: &Ctx) -> Result<(), String> {
     ctx.cov("replies_matched", json!(replies.load(Relaxed)));
     ctx.cov("exhaustive", json!(true));
     ctx.cov("bound", json!({"history_depth": depth, "alphabet": al.iter().map(|e| e.name()).collect::<Vec<_>>(), "batch_sizes_histories":[1,2,3], "differential_suffix_len": ctx.tier.pick(3,4), "burst_batch_sizes": ctx.tier.pick(13, 64)}));
-    ctx.cov("rule", json!(format!("all event sequences of length 1..={} over {{C0,C1,I0,I1 (valid classic/IETF request from socket 0/1), X0 (invalid datagram), step}} for batch_size 1,2,3, each completed to quiescence on a fresh real in-process Server (stateless enumeration; `states` = distinct canonical end states: per-socket reply counts, batch-size multiset, stats totals). Nonce pool forces byte-identical requests from different sockets, immediate byte-identical retransmissions on one socket, then a different request, then repeats. Oracle: per socket, the received datagrams are exactly one authentic reply (rtref::authentic bound to the exact request bytes) per accepted request sent from that socket, nothing for rejected datagrams, replies come from the server's address, framing matches the request's protocol. Mid-step arrivals: every prefix of <= 2 events + one step during which a request arrives at the polled/collected/sent hook point + every suffix of <= 1 event (a datagram arriving after the socket was seen empty must still be answered). Differential: every suffix of length {} after 3 prefixes vs on a fresh server. Parametric bursts: batch sizes x k in {{b-1,b,b+1,2b,2b+1}} x 6 patterns.", depth, ctx.tier.pick(3,4))));
+    ctx.cov("rule", json!(format!("all event sequences of length 1..={} over {{C0,C1,I0,I1 (valid classic/IETF request from socket 0/1), X0 (invalid datagram), step}} for batch_size 1,2,3, each completed to quiescence on a fresh real in-process Server (stateless enumeration; `states` = distinct canonical end states: per-socket reply counts, batch-size multiset, stats totals). Nonce pool forces byte-identical requests from different sockets, immediate byte-identical retransmissions on one socket, then a different request, then repeats. Oracle: per socket, the received datagrams are exactly one authentic reply (rtref::authentic bound to the exact request bytes) per accepted request sent from that socket, nothing for rejected datagrams, replies come from the server's address, framing matches the request's protocol. Mid-step arrivals: every prefix of <= 2 events + one step during which a request arrives at the polled/collected/sent hook point + every suffix of <= 1 event (a datagram arriving after the socket was seen empty must still be answered). Differential: every suffix of length {} after 3 prefixes vs on a fresh server. Parametric bursts: batch sizes x k in {{b-1,b,b+1,2b,2b+1}} (and 16b, 16b+1, 17b+1, 32b+1 for b <= 8, thorough all b: more than one event-loop call is needed to drain them) x 6 patterns.", depth, ctx.tier.pick(3,4))));
     ctx.sample(json!({"batch_size":2,"events":["C0","C1","I0","step","X0","I1"]}));
     ctx.sample(json!({"kind":"burst","batch_size":64,"k":129,"pattern":"CIX"}));
     ctx.assume("loopback UDP delivery is synchronous with send_to (self-tested)");
